@@ -30,7 +30,8 @@ BUILT = {
             'Every history of preprocessor directives over a 17-symbol alphabet up to depth 4 (thorough 5), and up to depth 5 '
             '(thorough 6) over a core alphabet, is turned into a program with a unique marker region after each directive and an '
             'observation suffix, assembled by the real code and compared byte for byte (or rejection for rejection) with the '
-            'reference semantics of the statement. Full tree, stateless re-execution; every explored transition is an execution '
+            'reference semantics of the statement; histories to depth 3 (thorough 4) with included files that carry stray or balanced '
+            'directives of their own; the comparison-operator product. Full tree, stateless re-execution; every explored transition is an execution '
             'of the implementation.',
             'Reference model mc/refasm.py. Not judged: #else/#elif after #else, conditions on undefined symbols (requirement '
             'documents contradict each other), chains open at end of file. #mute is a counter as pinned by the repository tests. '
@@ -38,7 +39,7 @@ BUILT = {
             'DESIGN.md 3/C08'),
     'C02': ('model_checking',
             'explicit-state exploration of line histories on the real assembler against a reference two-pass layout model',
-            'Every history over a 27-symbol line alphabet (labels, instructions of three sizes, data, fills, origins, alignments, '
+            'Every history over a 28-symbol line alphabet (labels, a zero-valued constant, instructions of three sizes, data, fills, origins, alignments, '
             'zone switches, muting, an excluded block; forward and backward references) up to depth 3 (thorough 4), and one level '
             'deeper over a core alphabet, under three configurations, is assembled by the real code; the whole image must equal '
             'the reference layout, which fixes every address, every label value (read out by a suffix) and every line size.',
@@ -49,7 +50,7 @@ BUILT = {
             'explicit-state exploration of program histories x exhaustive window product on the real assembler',
             'For every accepted program history (depth <=3, thorough <=4, three configurations incl. predefined data and a '
             'non-zero origin) every (start, end, fill) window over the address range +2 is assembled by the real CLI callback '
-            'and the image compared with the reference window onto the reference memory map.',
+            'and the image compared with the reference window onto the reference memory map (emitted zero bytes included).',
             'Reference model mc/refasm.py (muted lines occupy addresses, emit nothing). Windows with end < start-1 not generated.',
             'DESIGN.md 3/C03'),
     'C04': ('model_checking',
@@ -57,7 +58,8 @@ BUILT = {
             'Every ordered pair and triple (thorough: quadruple) of byte-producing lines over start x kind x length (data, fills, '
             'instructions, zone-relative origins into overlapping zones, a line in an included file, a predefined data block, '
             'zero-length lines) is assembled; rejection is expected iff two lines of length >=1 share an address, otherwise the '
-            'image must be the union.',
+            'image must be the union; every pair and touching triple is run again with --no-binary and one of the four pretty-print '
+            'formats (acceptance only).',
             'Reference model mc/refasm.py; muted lines not generated.',
             'DESIGN.md 3/C04'),
     'C05': ('model_checking',
@@ -129,7 +131,7 @@ BUILT = {
             'combination and a disallowed pair x pairs of 8 texts, variants using one operand set in both slots with an asymmetric '
             'disallowed pair, explicit combinations with an empty operand, and three-variant definitions; every variant has its own opcode '
             'and every alternative its own code so the image names the choice; expected = first accepting variant by the stated '
-            'priority, or rejection.',
+            'priority, or rejection; statements accepted one by one must be encoded the same way in sequence.',
             'Reference matcher in mc/props/c13.py over text categories known by construction. Sets with two numeric-like alternatives '
             'are not generated (the statement does not order them). Fully unmatched statements are thinned to one instruction per group.',
             'DESIGN.md 3/C13'),
@@ -145,7 +147,7 @@ BUILT = {
             'DESIGN.md 3/C10'),
     'C19': ('fault_enumeration',
             'single-fault enumeration at every applicable site of well-formed definitions + version grids',
-            'Every fault of a 14-entry catalogue at every applicable site of two generated definitions that use every section (first '
+            'Every fault of a 16-entry catalogue at every applicable site of two generated definitions that use every section (first '
             'sites of the 8 definitions shipped with the repository), the 512-point min_version grid and the 640-point #require grid; '
             'faulty definitions must be rejected, base definitions (incl. the shipped ones) must load, version gates must follow '
             'version ordering.',
@@ -173,7 +175,8 @@ BUILT = {
             'Six base programs that together use every line kind; every single deviation from the menu (drop / duplicate / garble each '
             'token, drop / duplicate each line, insert a zero-length directive at each position, the four must-reject replacements, '
             'expression positions filled with 8..64 tokens) under six output configurations with a pre-seeded output file; thorough: '
-            'every pair of line-level deviations. Invariants: termination, no image created or altered on failure, image present on '
+            'every pair of line-level deviations; a wide-address family (widths 24..64 x code around 2^16..2^48 x every format) for '
+            'failures that arise while outputs are produced. Invariants: termination, no image created or altered on failure, image present on '
             'success, must-reject deviations never succeed.',
             'Termination judged by a 10 s budget (normal runs ~2 ms) and reported only if the real CLI also exceeds 60 s.',
             'DESIGN.md 3/C14'),
@@ -193,7 +196,9 @@ BUILT = {
             'built to collide, with empty categories, is turned into an ISA definition and both real generators are run; every '
             'generated file must parse in its format (JSON / YAML / property list / XML / zip), contain no ##PLACEHOLDER##, and '
             'the category patterns extracted from the grammar must match every configured word in full and no near-miss identifier '
-            'or word of another category; directive, data-type, preprocessor and function keywords must be matched by their patterns.',
+            'or word of another category; directive, data-type, preprocessor and function keywords must be matched by their patterns; '
+            'whole statement lines are tokenised by an interpreter for both grammar formats (mc/tmlite.py: rule stack, rule order, '
+            'leftmost match) and the mnemonic / register / literal tokens must come out in their categories.',
             'Python re is assumed to agree with the editors\' regex engines on the constructs used. Candidate violations are confirmed '
             'through `bespokeasm generate-extension` in a subprocess.',
             'DESIGN.md 3/C20'),
